@@ -1107,6 +1107,19 @@ fn e2e_messages(rng: &mut StdRng, sizes: &[usize], with_singles: bool) -> Vec<E2
         v.insert(i, E2eMsg { bytes: ber::message(3, ber::ldap_result(15, 6, b"", b"cmp", &[]), None), dest: "c", tok: "cmp".into() });
     }
     v.push(E2eMsg { bytes: ber::message(1, ber::ldap_result(5, 0, b"", b"done", &[]), None), dest: "s", tok: "done".into() });
+    // one message in four carries its outer length in the long form with three or four length octets (X.690 8.1.3.5 lets
+    // the sender choose; Active Directory writes 30 84 .. for everything)
+    for m in v.iter_mut() {
+        if rng.gen_range(0..4) == 0 {
+            let h = header_len(&m.bytes);
+            let body = m.bytes.len() - h;
+            let k = if body < (1 << 24) && rng.gen_bool(0.3) { 3 } else { 4 };
+            let mut w = vec![0x30, 0x80 | k as u8];
+            w.extend_from_slice(&(body as u32).to_be_bytes()[4 - k..]);
+            w.extend_from_slice(&m.bytes[h..]);
+            m.bytes = w;
+        }
+    }
     v
 }
 
